@@ -291,7 +291,7 @@ def r7(R, repo):
     R.unsure(key_m2, (wu, m2[0].stmt), 'Welford.update left the fragment the symbolic evaluator understands: %s' % e_)
   key_avg = key_of(au, 'total += sum(values); count += number of values')
   try:
-    exa = ratpoly.SymExec(lambda x: {'values.sum()': 'sum_b', 'jnp.sum(values)': 'sum_b', 'values.size': 'n_b', 'len(values)': 'n_b', 'values.mean()': 'mean_b', 'jnp.mean(values)': 'mean_b'}.get(astu.src(x)),
+    exa = ratpoly.SymExec(lambda x: {'values.sum()': 'sum_b', 'jnp.sum(values)': 'sum_b', 'values.size': 'n_b', 'len(values)': 'rows_b', 'values.shape[0]': 'rows_b', 'values.mean()': 'mean_b', 'jnp.mean(values)': 'mean_b'}.get(astu.src(x)),
                           lambda x: {'self.total.value': 'total', 'self.total': 'total', 'self.count.value': 'n', 'self.count': 'n'}.get(astu.src(x)), choose_ifexp=chooser(au))
     enva = exa.run([s_ for s_ in astu.strip_docstring(au.node.body) if not (isinstance(s_, (ast.Assign, ast.AnnAssign)) and 'kwargs[' in astu.src(s_))])
     A = ratpoly.Rat.atom
